@@ -478,6 +478,13 @@ fn translate_block(
                 | capstone::mips_insn::MIPS_INS_JAL
                 | capstone::mips_insn::MIPS_INS_JALR
                 | capstone::mips_insn::MIPS_INS_JR => {
+                    // a branch in a branch delay slot is UNPREDICTABLE; lifting it
+                    // would give the block the successors of both branches
+                    if let TranslateBranchDelay::DelaySlot(..)
+                    | TranslateBranchDelay::DelaySlotFallThrough(..) = branch_delay
+                    {
+                        return Err("branch in a branch delay slot".into());
+                    }
                     if bytes.len() == DEFAULT_TRANSLATION_BLOCK_BYTES && offset + 8 >= bytes.len() {
                         successors.push((address + offset as u64, None));
                         break;
